@@ -316,6 +316,15 @@ fn step_inner(r: &mut Real, m: &mut Model, op: &Op, cx: &mut Ctx) -> bool {
                 }
                 Ctor::HeaderAndStr => (H::Se(Arc::from_header_and_str((), TEXTS[n])), 0),
             });
+            let fresh = match &h {
+                H::A(x) => Arc::count(x),
+                H::S(x) => Arc::count(x),
+                H::Se(x) => Arc::count(x),
+                _ => 1,
+            };
+            if fresh != 1 {
+                cx.fail(COUNT | CTOR, "fresh-count", format!("{}: a freshly constructed value reports a count of {}", what, fresh));
+            }
             let d = delta(&s);
             // allocator traffic: exactly one surviving block with the expected layout; a collecting
             // constructor may allocate and free scratch buffers
